@@ -125,7 +125,9 @@ class NetBuilder(rg.CaseBuilder):
             # the forwarder answers like a server that holds every zone of the universe
             self.extra[forwarder_ip] = list(u.zones)
         self.utok = u.token(self.extra)
-        ups = rg.upstream_questions(u, reachable(u, zones, cache, questions))
+        ups = reachable(u, zones, cache, questions)
+        if forwarder_ip is None:
+            ups = rg.upstream_questions(u, ups)      # + the address questions for the universe's nameserver hosts
         claims = rg.claimed_apexes(u, self.extra)
         groups = {}
         servers = dict(u.servers)
@@ -305,7 +307,7 @@ def sc_auth(rng, u):
         ops.append(I("ns." + P, A, v4(0x0A010153)))
     qs = [("www." + P, A), ("www." + P, ANY), ("www." + P, rng.choice([AAAA, MX, TXT])), ("missing." + P, A),
           ("missing." + P, ANY), ("mail." + P, MX), ("alias." + P, A), ("out." + P, A), ("out2." + P, rng.choice([A, AAAA])),
-          ("outnx." + P, A), ("x.w." + P, A), ("y.wc." + P, A), (P, SOA), (P, NS), ("only." + P, ANY), ("out." + P, CNAME),
+          ("outnx." + P, A), ("x.w." + P, A), ("y.wc." + P, A), ("a.b.wc." + P, A), ("a.b.w." + P, A), (P, SOA), (P, NS), ("only." + P, ANY), ("out." + P, CNAME),
           ("out." + P, ANY)]
     if child and rng.random() < 0.8:
         for r in u.zones[P].cuts:
@@ -525,7 +527,10 @@ def build(batch, u, parts, mode, fwd, rng=None, hints=True, port=53):
     zones = merge_zones(([root_zone(u, parts.overrides)] if hints else
                          ([{"apex": ".", "soa": None, "ops": list(parts.overrides)}] if parts.overrides else [])) + parts.zones)
     cache = g.dedup(parts.cache)
-    qs = parts.questions[:12]
+    qs = parts.questions
+    if len(qs) > 12:                                      # keep 12, in order, from every contributing scenario
+        keep = sorted(rng.sample(range(len(qs)), 12)) if rng is not None else range(12)
+        qs = [qs[i] for i in keep]
     mk = "fwd" if fwd else "rec"
     return NetBuilder(batch, u, mode, port, qs, zones, cache, "%s:%s" % (parts.kind, mk), forwarder_ip=fwd)
 
@@ -771,24 +776,56 @@ def reply_answers(c, e):
     return table_answers(c).get((e.ip, tok.question(e.qname, e.qtype, e.qclass)))
 
 
-def kind_of(case_line, out):
-    c = rg.Case(case_line)
-    p = rg.parse_result(out)
-    tag = "?"
-    if p:
-        tag = "".join(sorted({r.kind[0] for r in p[0]}))
-    return "%s:%s" % (c.flags.get("kind", "?"), tag)
+def kind_of(case_line):
+    """scenario and mode class of a case: the `kind` flag kept in the expect field"""
+    i = case_line.rfind(" kind=")
+    j = case_line.find(";", i)
+    return case_line[i + 6:j] if i >= 0 and j >= 0 else "?"
 
 
 # ---------------------------------------------------------------------------------------------
 # the `extra` hook shared by p_c01 and p_c10
 # ---------------------------------------------------------------------------------------------
 
+def model_driver_fresh(name, ml_extra):
+    """build/model_<name> exists and its stamp equals the hash of its sources (the .v files it is extracted from and
+    their dependencies, the OCaml glue) -- the test core.build_model_driver makes before relinking, made here WITHOUT
+    taking the Coq lock (Generated/Tables.v has been regenerated by step 1 of the same check run)"""
+    import os
+    cap = name[0].upper() + name[1:]
+    ext = os.path.join(core.COQ, "Extract", "Extract%s.v" % cap)
+    deps = [p for p in core.coq_deps(ext) if p != ext]
+    mls = ["vutil.ml", "vmain.ml", "drv_name.ml", "vrr.ml"] + list(ml_extra) + ["drv_%s.ml" % name, "main_%s.ml" % name]
+    srcs = deps + [ext] + [os.path.join(core.OCAML_SRC, f) for f in mls]
+    stamp = os.path.join(core.BUILD, "model_%s.hash" % name)
+    try:
+        return bool(deps) and os.path.exists(core.model_driver_path(name)) and open(stamp).read() == core.file_hash(srcs)
+    except OSError:
+        return False
+
+
+def run_past_deaths(binary, cases, run_dir, tag, rounds=3):
+    """core.run_sharded, continued past a driver death: a shard that crashes (stack overflow, abort) or has not
+    finished after 5 minutes (hang) loses its remaining cases (`DRIVER-DIED-AFTER`); those are run again, up to
+    `rounds` more times, so one fatal case does not hide the cases behind it.  The fatal case keeps its
+    `DRIVER-DIED rc=...` line; cases still not run at the end keep `DRIVER-DIED-AFTER` and are counted, not judged."""
+    outs = core.run_sharded(binary, cases, run_dir, tag, timeout=300)
+    for k in range(rounds):
+        todo = [i for i, o in enumerate(outs) if o == "DRIVER-DIED-AFTER"]
+        if not todo:
+            break
+        again = core.run_sharded(binary, [cases[i] for i in todo], run_dir, "%s-again%d" % (tag, k),
+                                 nshards=max(1, min(16, len(todo))), timeout=120)
+        for i, o in zip(todo, again):
+            outs[i] = o
+    return outs
+
+
 def run(ctx, pid, oracle, nontrivial):
     """-> (failures, info).  oracle(case, impl_out, stats) -> None | (class, text), on the implementation's output only
     (stats: a dict of counters the oracle may fill, shown in the evidence); nontrivial(case, model_out) -> bool."""
     info = {"stream": "resolver (network modes)", "evaluations": 0, "distinct_nontrivial": 0}
-    ok, out = core.build_model_driver("resolver", ML_EXTRA)
+    ok, out = (True, "up to date") if model_driver_fresh("resolver", ML_EXTRA) else core.build_model_driver("resolver", ML_EXTRA)
     if not ok:
         return [core.Failure("net-model-build", "model driver `resolver` failed to build: " + core.trunc(out[-800:], 800),
                              found_input=False)], info
@@ -796,14 +833,14 @@ def run(ctx, pid, oracle, nontrivial):
     if not ok:
         return [core.Failure("net-impl-build", "harness driver `resolver` failed to build against /repo: " + core.trunc(out[-1500:], 1500),
                              found_input=False)], info
-    rng = random.Random(ctx["seed"] * 1000003 + sum(map(ord, pid)) * 31 + 7)
-    failures, dist, seen, stats = [], {}, set(), {}
-    disagreements = exchanges = questions = 0
+    rng = random.Random(ctx["seed"] * 1000003 + int(pid[1:]) * 7919 + 7)     # (C01 and C10: different streams)
+    failures, dist, seen, stats, results, byclass = [], {}, set(), {}, {}, {}
+    disagreements = exchanges = questions = not_run = 0
     modes = {}
     sample = {}
     for cases in chunks(rng, ctx["tier"]):
-        mouts = core.run_sharded(core.model_driver_path("resolver"), cases, ctx["run_dir"], "net-model")
-        iouts = core.run_sharded(core.impl_driver_path("resolver"), cases, ctx["run_dir"], "net-impl")
+        mouts = run_past_deaths(core.model_driver_path("resolver"), cases, ctx["run_dir"], "net-model")
+        iouts = run_past_deaths(core.impl_driver_path("resolver"), cases, ctx["run_dir"], "net-impl")
         if not sample:
             sample = {"case": core.trunc(cases[0], 300), "impl": core.trunc(iouts[0], 300)}
         for c, mo, io in zip(cases, mouts, iouts):
@@ -816,10 +853,7 @@ def run(ctx, pid, oracle, nontrivial):
                         info["distinct_nontrivial"] += 1
                 except Exception:
                     pass
-            try:
-                k = kind_of(c, mo)
-            except Exception:
-                k = "unparsed"
+            k = kind_of(c)
             dist[k] = dist.get(k, 0) + 1
             m = c.split(" ", 3)[2]
             m = "forwarding" if m.startswith("f") else "recursive-" + m
@@ -828,9 +862,19 @@ def run(ctx, pid, oracle, nontrivial):
             if p:
                 questions += len(p[0])
                 exchanges += sum(len(r.log) for r in p[0])
+                for r in p[0]:
+                    rk = {"A": "Authoritative", "X": "AuthoritativeNameError", "N": "NonAuthoritative", "E": "error"}.get(r.kind, r.kind)
+                    if r.kind == "E":
+                        rk += ":" + r.error.split(":")[0]
+                    results[rk] = results.get(rk, 0) + 1
+            if io == "DRIVER-DIED-AFTER" or mo == "DRIVER-DIED-AFTER":
+                not_run += 1                    # behind a fatal case in its shard, in every round
+                continue
             f = oracle(c, io, stats)
             if f is not None:
-                failures.append(core.Failure(f[0], f[1] + "  [replay: feed the case line to build/target/debug/impl_resolver]", c, io, mo))
+                byclass[f[0]] = byclass.get(f[0], 0) + 1
+                if byclass[f[0]] <= 50:         # (every one is counted; the first 50 of a class are kept with their case)
+                    failures.append(core.Failure(f[0], f[1] + "  [replay: feed the case line to build/target/debug/impl_resolver]", c, io, mo))
             elif mo != io:
                 disagreements += 1
                 if disagreements <= 20:
@@ -838,7 +882,8 @@ def run(ctx, pid, oracle, nontrivial):
                                                  "model and implementation disagree on a network-mode case (resolver stream); no property "
                                                  "failure found on it  [replay: feed the case line to build/model_resolver and "
                                                  "build/target/debug/impl_resolver]", c, io, mo, found_input=False))
-    info.update({"disagreements": disagreements, "modes": dict(sorted(modes.items())), "questions": questions,
-                 "upstream_exchanges_logged": exchanges, "oracle_counters": dict(sorted(stats.items())),
+    info.update({"disagreements": disagreements, "not_run_behind_a_driver_death": not_run, "modes": dict(sorted(modes.items())), "questions": questions,
+                 "upstream_exchanges_logged": exchanges, "results": dict(sorted(results.items())),
+                 "oracle_failures_by_class": dict(sorted(byclass.items())), "oracle_counters": dict(sorted(stats.items())),
                  "distribution": dict(sorted(dist.items())), "sample": sample})
     return failures, info
